@@ -233,6 +233,51 @@ example : (rowOut 4 [(["type".toList], "begin group".toList), (["name".toList], 
     = some [W.disabled 4, W.noLabel 4 "group".toList] := by decide +kernel
 example : noMaxPixelsTrig [(["type".toList], "image".toList), (["name".toList], "p".toList)] = true := by decide +kernel
 
+
+/-! ## Choices sheet, or_other -/
+
+/-- **choice_no_label_iff.**  When the choices sheet is accepted, the warnings of `validate_choice_list` (run per
+    list, lists in first-seen order) are exactly: one `[row : n]` warning for every numbered choice row that has a
+    list name and no label. -/
+theorem choice_no_label_iff (rows : List (Nat × PRow)) (ws : List W)
+    (h : choicesWarnings (groupChoices rows) = .ok ws) (w : W) : w ∈ ws ↔ w ∈ choiceDue rows := by
+  rw [choicesWarnings_mem _ ws h w]
+  simp only [choiceDue, List.mem_filterMap]
+  constructor
+  · rintro ⟨g, hg, nr, hnr, hl, rfl⟩
+    have := (foldl_gstep_mem rows [] nr).mp ⟨g, by rw [← groupChoices_eq]; exact hg, hnr⟩
+    simp only [List.not_mem_nil, false_and, exists_false, false_or] at this
+    exact ⟨nr, this.1, by simp [this.2, hl]⟩
+  · rintro ⟨nr, hnr, hval⟩
+    split at hval
+    · rename_i hc
+      simp only [Bool.and_eq_true, Bool.not_eq_true'] at hc
+      simp only [Option.some.injEq] at hval
+      obtain ⟨g, hg, hx⟩ := (foldl_gstep_mem rows [] nr).mpr (Or.inr ⟨hnr, hc.1⟩)
+      exact ⟨g, by rw [groupChoices_eq]; exact hg, nr, hx, hc.2, hval.symm⟩
+    · cases hval
+
+example : (choicesWarnings (groupChoices (numberFrom 2
+    [[(["list name".toList], "l".toList), (["name".toList], "a".toList), (["label".toList], "A".toList)],
+     [(["list name".toList], "m".toList), (["name".toList], "x".toList)],
+     [(["list name".toList], "l".toList), (["name".toList], "a".toList)]]))).toOption
+    = some [W.choiceNoLabel 4, W.choiceNoLabel 3] := by decide +kernel
+
+/-- **or_other_iff.**  `or_other_check` emits its warning iff some select row was spelled with or_other (`flag`,
+    characterised by `or_other_flag`) and some translatable column on either sheet carries a language. -/
+theorem or_other_iff (svh chh : List (List Str)) (hsv : trShort surveyTrTable svh = true)
+    (hch : trShort choicesTrTable chh = true) (flag : Bool) :
+    orOtherCheck flag (findTranslations surveyTrTable svh) (findTranslations choicesTrTable chh) =
+      if flag && (translated (trPairs surveyTrTable svh) || translated (trPairs choicesTrTable chh))
+      then [W.orOther] else [] := by
+  unfold orOtherCheck
+  rw [seenDefaultOnly_iff _ _ (findTranslations_inv _ _ hsv) (findTranslations_keys_nodup _ _),
+    seenDefaultOnly_iff _ _ (findTranslations_inv _ _ hch) (findTranslations_keys_nodup _ _)]
+  simp
+
+example : orOtherCheck true (findTranslations surveyTrTable [["label".toList, "fr".toList]])
+    (findTranslations choicesTrTable [["label".toList]]) = [W.orOther] := by decide +kernel
+
 /-! ## Advisory only -/
 
 /-- **warnings_advisory.**  The conversion result does not depend on the warnings list passed in, and that list is
